@@ -9,6 +9,7 @@ there, and the released victims finish their own calls.
 """
 import json
 import os
+import re
 import subprocess
 import time
 
@@ -67,6 +68,132 @@ def run_fork(arg):
     import shutil
     shutil.rmtree(work, ignore_errors=True)
     return ev
+
+
+# ------------------------------------------------------------------ storm arm: forks landing inside the I/O the library (and libc for it) does
+
+STORM_FORMATS = [
+    ("datetime", "%{datetime} %{datetime:%Y-%m-%dT%H:%M:%S%z} %{cmdline}"),
+    ("names", "%{username} %{eusername} %{group} %{egroup} %{tty_username} %{cmdline}"),
+    ("login-ipaddr", "%{login} %{ipaddr} %{tty} %{cmdline}"),
+    ("proc", "%{rpname} %{cgroup:1} %{cwd} %{hostname} %{domain} %{cmdline}"),
+    ("default", None),
+]
+
+
+def symbolize_stuck(bld, text):
+    """'lib(+0xoff)' / 'lib(sym+0xoff)' lines of backtrace_symbols_fd -> the libc function waiting for the lock (first libc frame
+    below the lock-wait frame) and the innermost Snoopy function."""
+    libc_fn, sn_fn = None, None
+    lines = text.splitlines()
+    for i, line in enumerate(lines):
+        if "lll_lock_wait" in line:
+            lines = lines[i + 1:]
+            break
+    for line in lines:
+        m = re.match(r"^(\S+?)\((\w*)\+?(0x[0-9a-f]+)?\)\[", line)
+        if not m:
+            continue
+        lib, sym, off = m.group(1), m.group(2), m.group(3)
+        if "libsnoopy" in lib and sn_fn is None:
+            if sym and not sym.startswith("exec"):
+                sn_fn = sym
+            elif off and not sym:
+                try:
+                    out = subprocess.run(["addr2line", "-f", "-e", bld.lib, off], capture_output=True, text=True, timeout=20).stdout.split("\n")
+                    sn_fn = out[0]
+                except Exception:
+                    pass
+        if "libc.so" in lib and libc_fn is None and "lll_lock_wait" not in sym and off:
+            if sym:
+                libc_fn = sym
+            else:
+                try:
+                    out = subprocess.run(["gdb", "-batch", "-ex", "info symbol %s" % off, lib], capture_output=True, text=True, timeout=30).stdout.strip().split("\n")[-1]
+                    mm = re.match(r"^(\w+)", out)
+                    if mm and "No" not in out[:3]:
+                        libc_fn = mm.group(1)
+                except Exception:
+                    pass
+    return libc_fn, sn_fn
+
+
+def run_storm(arg):
+    bld, fname, fmt, out, threads, forks, delay_us, root, idx = arg
+    work = os.path.join(root, "st%03d" % idx)
+    conf = os.path.join(work, "conf")
+    os.makedirs(conf, exist_ok=True)
+    outspec = {"file": "file:" + os.path.join(work, "log"), "file-template": "file:" + os.path.join(work, "log-%{datetime:%Y%m%d}"), "devlog": "devlog", "syslog": "syslog"}[out]
+    with open(os.path.join(conf, "snoopy.ini"), "w") as f:
+        f.write("[snoopy]\n" + ('message_format = "%s"\n' % fmt if fmt else "") + "output = %s\n" % outspec)
+    env = {"PATH": "/usr/bin:/bin", "TZ": ":/etc/localtime", "VREC_DEVLOG": os.path.join(work, "nodevlog")}
+    pl = "%s %s" % (bld.lib, os.path.join(HBIN, "libvrec.so"))
+    cmd = ["strace", "-f", "-o", "/dev/null", "-E", "LD_PRELOAD=" + pl, "-e", "trace=openat,read,connect", "-e", "inject=openat,read,connect:delay_exit=%d" % delay_us,
+           os.path.join(HBIN, "vforkstorm"), "--mount", "%s:%s" % (conf, SYSCONF), "--threads", str(threads), "--forks", str(forks), "--child-ms", "8000"]
+    if fname == "login-ipaddr":
+        # a utmp file with a few hundred entries, so that the lookups really read it
+        up = os.path.join(work, "utmp")
+        import struct
+        with open(up, "wb") as f:
+            for n in range(300):
+                f.write(struct.pack("hi32s4s32s256shhiii4i20s", 7, 1000 + n, b"pts/%d" % n, b"%d" % n, b"user%d" % n, b"host%d.example.org" % n, 0, 0, 0, 0, 0, 10, 1, 2, 3, b""))
+        cmd += ["--utmp-from", up]
+    try:
+        r = subprocess.run(cmd, env=env, capture_output=True, text=True, cwd=work, timeout=1200)
+    except subprocess.TimeoutExpired:
+        kill_stragglers(work)
+        return dict(harness_timeout=1, fname=fname, out=out)
+    kill_stragglers(work)
+    ev = None
+    for line in r.stdout.splitlines():
+        try:
+            e = json.loads(line)
+            if e.get("ev") == "STORM":
+                ev = e
+        except ValueError:
+            pass
+    if ev is None:
+        return dict(no_event=1, rc=r.returncode, stderr=r.stderr[-300:], fname=fname, out=out)
+    ev.update(fname=fname, out=out, fmt=fmt, delay_us=delay_us)
+    ev["stuck"] = []
+    for blk in r.stderr.split("STUCK-CHILD-BACKTRACE")[1:]:
+        ev["stuck"].append(symbolize_stuck(bld, blk) + (blk[:1500],))
+    import shutil
+    shutil.rmtree(work, ignore_errors=True)
+    return ev
+
+
+def storm_arm(bld, tr, rng, root, F, tot):
+    jobs = []
+    idx = 0
+    for fname, fmt in STORM_FORMATS:
+        for out in (("file", "devlog") if tr == "quick" else ("file", "file-template", "devlog", "syslog")):
+            for rep in range(1 if tr == "quick" else 6):
+                jobs.append((bld, fname, fmt, out, rng.choice([4, 8]), 60 if tr == "quick" else 200, rng.choice([10000, 30000]), root, idx)); idx += 1
+    # bursts: many short-lived processes whose forks land while the threads make their very first calls (libc initialises time
+    # zone data, NSS, stdio lazily and under its own locks at that moment)
+    for fname, fmt in STORM_FORMATS[:3]:
+        for rep in range(10 if tr == "quick" else 150):
+            jobs.append((bld, fname, fmt, "file", 4, 5, 30000, root, idx)); idx += 1
+    for ev in pmap(run_storm, jobs, 8):
+        tot["storm_runs"] = tot.get("storm_runs", 0) + 1
+        if ev.get("harness_timeout") or ev.get("no_event"):
+            tot["storm_inconclusive"] = tot.get("storm_inconclusive", 0) + 1
+            log("[C10] inconclusive storm run: %s" % (ev,))
+            continue
+        tot["storm_forks"] = tot.get("storm_forks", 0) + ev["forks"]
+        tot["storm_children_completed"] = tot.get("storm_children_completed", 0) + ev["completed"]
+        tot["storm_worker_calls"] = tot.get("storm_worker_calls", 0) + ev["worker_calls"]
+        desc = "format %s, output %s, %d threads logging, every openat/read/connect delayed by %d us" % (ev["fname"], ev["out"], ev["threads"], ev["delay_us"])
+        wit = {k: v for k, v in ev.items() if k != "stuck"}
+        if ev["blocked"]:
+            stuck = ev["stuck"] or [(None, None, "")]
+            for libc_fn, sn_fn, bt in stuck[:3]:
+                F.violation("C10:storm:child-deadlock:%s-in-%s" % (libc_fn or "unknown", sn_fn or "unknown"),
+                            "%d of %d children forked while other threads were logging never finished their own exec call (blocked in syscall %s); one is waiting in %s called from %s (%s)" % (
+                                ev["blocked"], ev["forks"], ev["blocked_syscall"][:30], libc_fn, sn_fn, desc), dict(wit, backtrace=bt))
+        if ev["died"]:
+            F.violation("C10:storm:child-died", "%d of %d children died before finishing their exec call (%s)" % (ev["died"], ev["forks"], desc), wit)
 
 
 def main():
@@ -144,6 +271,11 @@ def main():
             F.violation("C10:parent-thread-stuck", "%d of %d parent threads finished after the fork (%s)" % (ev["victims_done"], ev["victims"], desc), wit)
         if ev["problem"]:
             F.violation("C10:" + ev["problem"].split(":")[0], "%s (%s)" % (ev["problem"], desc), wit)
+    root2 = mkwork("c10s")
+    storm_arm(bld, tr, rng, root2, F, tot)
+    rmwork(root2)
+    if tot.get("storm_children_completed", 0) == 0 and F.n_unlisted() == 0:
+        raise Harness("storm arm observed nothing: %s" % tot)
     if (tot["in_lock"] == 0 or tot["after_unlock"] == 0 or tot.get("at_io", 0) == 0) and F.n_unlisted() == 0:
         raise Harness("fork points not reached: %s" % tot)
     if (tot["inconclusive"] > max(2, tot["scenarios"] // 50)) and F.n_unlisted() == 0:
